@@ -61,6 +61,15 @@ template <class MM, class O> struct H {
           std::vector<typename std::conditional<O::is_z2, unsigned, std::pair<unsigned, unsigned> >::type> v; for (auto& kv : b) pushE(v, kv.first, kv.second);
           m->insert_column(v); ++ncols; return "inscol"; }
         if constexpr (O::has_removable_columns && !O::has_column_compression) { if (o == "rmlast") { m->remove_last(); --ncols; return "rmlast"; } }
+        if (o == "dup") {  // C15: continue with a copy / moved / swapped version; the source is mutated (copies) and destroyed
+          long k = L(t[1]); std::unique_ptr<MM> n; auto fresh = [&]() { if constexpr (O::is_z2) n.reset(new MM()); else n.reset(new MM(0u, (unsigned)p)); };
+          if (k == 0) n.reset(new MM(*m));
+          else if (k == 1) { fresh(); *n = *m; }
+          else if (k == 2) n.reset(new MM(std::move(*m)));
+          else if (k == 3) { fresh(); *n = std::move(*m); }
+          else { fresh(); using std::swap; swap(*n, *m); }
+          if (k <= 1) { std::vector<typename std::conditional<O::is_z2, unsigned, std::pair<unsigned, unsigned> >::type> v; pushE(v, 0, 1); m->insert_column(v); }
+          m = std::move(n); return "dup"; }
         if (o == "add") { m->add_to((unsigned)L(t[1]), (unsigned)L(t[2])); return "add"; }
         if (o == "mta") { m->multiply_target_and_add_to((unsigned)L(t[1]), (unsigned)md(L(t[2]), p), (unsigned)L(t[3])); return "mta"; }
         if (o == "msa") { m->multiply_source_and_add_to((unsigned)md(L(t[1]), p), (unsigned)L(t[2]), (unsigned)L(t[3])); return "msa"; }
